@@ -1,10 +1,53 @@
 import BFL.Driver.Proto
-/- Driver entries of this group (stub: no operation handled yet). -/
+import BFL.Gen.RaceTable
+/-
+Driver entries of C10: the decision procedure of BFL/Model/Race.lean executed (compiled) on the
+regenerated table, for the check to compare with ThreadSanitizer's reports.
+
+  c10-verdicts            -> "ok" then one token per member touched by both roles:
+                             Class::member|kind|ok            or
+                             Class::member|kind|bad|<ctl fn>|<line>|<r/w>|<filter fn>|<line>|<r/w>
+  c10-reach controller|filter -> "ok" then the names of the functions the role reaches
+  c10-undisciplined       -> "ok" then the ids of the undisciplined members (Table.undisciplined)
+  c10-claims              -> "ok" roots-ok reach-ok shared-ok undisciplined-ok (claims of the generated file vs definitions)
+-/
 namespace BFL.DriverRace
-open BFL BFL.Proto
+open BFL BFL.Proto BFL.Race
+
+def kindStr : FieldKind → String
+  | .atomic => "atomic" | .plain => "plain" | .mutex => "mutex" | .condvar => "condvar" | .other => "other"
+
+def accStr : AccKind → String
+  | .read => "r" | .write => "w" | .rmw => "rw"
+
+def verdictTok (T : Table) (f : Nat) : String :=
+  let k := match T.fields[f]? with | some fd => kindStr fd.kind | none => "?"
+  match T.witness f with
+  | none => s!"{T.fieldName f}|{k}|ok"
+  | some (a, b) =>
+    s!"{T.fieldName f}|{k}|bad|{T.methodName a.meth}|{a.line}|{accStr a.kind}|{T.methodName b.meth}|{b.line}|{accStr b.kind}"
+
+def reachNames (T : Table) (r : Role) : List String :=
+  let S := T.reach r
+  (List.range T.methods.length).filterMap fun i => if S.testBit i then some (T.methodName i) else none
+
+def bstr (b : Bool) : String := if b then "1" else "0"
 
 def handle (op : String) (args : List String) : Option String :=
-  match op with
-  | _ => none
+  let T := RaceTable.table
+  match op, args with
+  | "c10-verdicts", [] => some (join ("ok" :: T.shared.map (verdictTok T)))
+  | "c10-reach", ["controller"] => some (join ("ok" :: reachNames T .controller))
+  | "c10-reach", ["filter"] => some (join ("ok" :: reachNames T .filter))
+  | "c10-undisciplined", [] => some (join ("ok" :: T.undisciplined.map toString))
+  | "c10-claims", [] =>
+    some (join ["ok",
+      bstr (T.rootIds .controller == RaceTable.rootsClaim .controller && T.rootIds .filter == RaceTable.rootsClaim .filter),
+      bstr (T.reach .controller == RaceTable.reachClaim .controller && T.reach .filter == RaceTable.reachClaim .filter),
+      bstr (T.shared == RaceTable.sharedClaim),
+      bstr (T.undisciplined == RaceTable.claimedUndisciplined),
+      bstr (T.rootsPresent .controller && T.rootsPresent .filter),
+      bstr (T.wfB)])
+  | _, _ => none
 
 end BFL.DriverRace
